@@ -39,8 +39,8 @@ def cases_from_vectors(ctx, limit):
     return [V.mkcase("vec%d" % k, v["unlock"], v["lock"], v["flags"], "vector") for k, v in enumerate(vs)]
 
 
-FAMILIES_QUICK = ["unary", "shift", "flow4", "nonmin", "binary"]
-FAMILIES_THOROUGH = ["unary", "shift", "flow5", "nonmin", "binary", "ternary"]
+FAMILIES_QUICK = ["unary", "shift", "flow4", "nonmin", "binary", "two2"]
+FAMILIES_THOROUGH = ["unary", "shift", "flow5", "nonmin", "binary", "ternary", "two3"]
 
 
 def cases_from_model(ctx, per_family):
@@ -57,7 +57,7 @@ def cases_from_model(ctx, per_family):
         em = [o for o in r["emitted"] if o.get("k") == "case"]
         total += len(em)
         # programs the specification itself does not model (items above ModelLimit) are not replayed
-        em = [o for o in em if o["st"] != "unmodelled"]
+        em = [o for o in em if o["st"] not in ("unmodelled", "toobig")]
         if len(em) > per_family:
             em = rng.sample(em, per_family)
         for k, o in enumerate(em):
@@ -68,7 +68,12 @@ def cases_from_model(ctx, per_family):
                 fl |= A.FLAGBITS["MINIMALIF"]
             if o["genesis"]:
                 fl |= A.FLAGBITS["UTXO_AFTER_GENESIS"]
-            cases.append(V.mkcase("%s%d" % (fam, k), [], o["lock"], fl, "tlc-" + fam))
+            for name, bit in (("p2sh", "P2SH"), ("cleanstack", "CLEANSTACK"), ("sigpushonly", "SIGPUSHONLY")):
+                if o[name]:
+                    fl |= A.FLAGBITS[bit]
+            if fam.startswith("two"):
+                fl &= ~(A.FLAGBITS["CHECKLOCKTIMEVERIFY"] | A.FLAGBITS["CHECKSEQUENCEVERIFY"])
+            cases.append(V.mkcase("%s%d" % (fam, k), o["unlock"], o["lock"], fl, "tlc-" + fam))
     ctx.cov["tlc_generated_cases"] = total
     ctx.cov["tlc_generated_cases_replayed"] = len(cases)
     return cases
@@ -87,14 +92,23 @@ def handle(ctx, events, rejects):
 
 
 def run(ctx):
-    ctx.cov["rule"] = "see DESIGN.md 6/C05"
+    ctx.cov["rule"] = ("programs = node script vectors without signature opcodes, every program of the TLC families (unary/binary/ternary "
+                       "opcode x edge-operand tables, shift tables, control-flow skeletons, non-minimal pushes, two-script programs; both eras, "
+                       "MINIMALDATA/MINIMALIF on and off; sampled in quick), random programs over the non-signature opcode alphabet with random "
+                       "flag subsets and tx contexts, mutated vectors; each executed on the real engine with a recording debugger and validated "
+                       "step by step (both stacks) and on the verdict by Trace_VM against ScriptVM.tla; distinct = (unlock, lock, flags)")
+    ctx.assumptions += ["ScriptVM.tla is calibrated on the node's expected verdicts on every run (calibration failure = exit 2)",
+                        "hash opcode results are oracle obligations recomputed with python hashlib",
+                        "error codes and the position of an error are not compared, only verdicts and stacks (an earlier/later error with the same verdict is accepted)"]
     cal = V.calibrate(ctx, ctx.pick(400, None))
     if cal["bad"]:
         v, o = cal["bad"][0]
         raise vf.Infra("calibration failure: ScriptVM.tla says %s, node vector expects %s: %s | %s" % (o["spec"], v["expect"], A.disasm(v["unlock"]), A.disasm(v["lock"])))
     ctx.cov["calibration"] = {k: v for k, v in cal.items() if k != "bad"}
     cases = cases_from_vectors(ctx, ctx.pick(400, None))
-    cases += cases_from_model(ctx, ctx.pick(700, 40000))
+    cases += cases_from_model(ctx, ctx.pick(2000, 40000))
+    cases += V.random_cases(ctx, ctx.pick(3000, 60000))
+    cases += V.mutated_vectors(ctx, ctx.pick(800, 20000))
     events = V.run_cases(ctx, cases, three=False)
     rejects, st = V.validate(ctx, events)
     ctx.cov.update(st)
@@ -102,6 +116,9 @@ def run(ctx):
     ntr = sum(1 for e in events if e["ev"] == "begin")
     ctx.cov["traces_validated_against_impl"] += ntr
     ctx.count_cases(ntr, {(bytes(e["unlock"]).hex(), bytes(e["lock"]).hex(), e["flags"]) for e in events if e["ev"] == "begin"})
+    begs = [e for e in events if e["ev"] == "begin"]
+    for k in (0, len(begs) // 3, 2 * len(begs) // 3):
+        ctx.sample(V.describe(begs[k]))
 
 
 def replay(ctx, case):
